@@ -16,11 +16,14 @@ FM32 == INSTANCE FindMatches WITH Variant <- "fixed", AllowPartialFirst <- TRUE,
                                   piece <- 0, pc <- 0
 \* the model works on the files in the order of the v1 stream (r.stream_order maps stream position
 \* to the index in r.files); the prediction is mapped back to r.files order
+FM2 == INSTANCE FindMatches WITH Variant <- "fixed", AllowPartialFirst <- TRUE, MaxFiles <- 0, MaxSize <- 0, P <- 2,
+                                 Classes <- {}, sizes <- 0, cands <- 0, dest <- 0, dsize <- 0, copied <- 0,
+                                 piece <- 0, pc <- 0
 ImplAfter(r) ==
     LET ord == r.stream_order
         sz == [k \in DOMAIN ord |-> r.files[ord[k]].length]
         cd == [k \in DOMAIN ord |-> r.files[ord[k]].cands]
-        d == IF r.P = 16384 THEN FM16!MatchAll(sz, cd) ELSE FM32!MatchAll(sz, cd)
+        d == IF r.P = 16384 THEN FM16!MatchAll(sz, cd) ELSE IF r.P = 2 THEN FM2!MatchAll(sz, cd) ELSE FM32!MatchAll(sz, cd)
         pos(f) == CHOOSE k \in DOMAIN ord : ord[k] = f
     IN [f \in DOMAIN r.files |->
           LET k == pos(f) IN
@@ -28,7 +31,7 @@ ImplAfter(r) ==
           ELSE IF cd[k][d[k]] = "intact" THEN "intact" ELSE "cand:" \o cd[k][d[k]]]
 
 Clause(r, c) ==
-  CASE c = "M13.impl" -> r.status # "ok" \/ r.version # 1 \/ r.P \notin {16384, 32768} \/ r.ntorrents # 1 \/ r.runs # 1
+  CASE c = "M13.impl" -> r.status # "ok" \/ r.version # 1 \/ r.P \notin {2, 16384, 32768} \/ r.ntorrents # 1 \/ r.runs # 1
                          \/ (\E k \in DOMAIN r.files : r.files[k].dest_pre # "absent")
                          \/ [k \in DOMAIN r.files |-> r.files[k].after] = ImplAfter(r)
     [] c = "C13.complete" -> r.status = "ok" /\ Complete(r.files)
